@@ -690,12 +690,19 @@ func evalStack(sstack []any) []any {
 			}
 		case in.code:
 			sstack[i] = false
-			if list, ok := right.([]any); ok {
-				for _, ev := range list {
-					if sameValue(left, ev) {
-						sstack[i] = true
-						break
-					}
+			var list []any
+			switch tr := right.(type) {
+			case []any:
+				list = tr
+			case gen.Array:
+				for _, n := range tr {
+					list = append(list, n)
+				}
+			}
+			for _, ev := range list {
+				if sameValue(left, normalize(ev)) {
+					sstack[i] = true
+					break
 				}
 			}
 		case empty.code:
@@ -707,6 +714,10 @@ func evalStack(sstack []any) []any {
 				case []any:
 					sstack[i] = boo == (len(tl) == 0)
 				case map[string]any:
+					sstack[i] = boo == (len(tl) == 0)
+				case gen.Array:
+					sstack[i] = boo == (len(tl) == 0)
+				case gen.Object:
 					sstack[i] = boo == (len(tl) == 0)
 				}
 			}
@@ -737,6 +748,10 @@ func evalStack(sstack []any) []any {
 			case []any:
 				sstack[i] = int64(len(tl))
 			case map[string]any:
+				sstack[i] = int64(len(tl))
+			case gen.Array:
+				sstack[i] = int64(len(tl))
+			case gen.Object:
 				sstack[i] = int64(len(tl))
 			}
 		case count.code:
